@@ -58,6 +58,8 @@ func init() {
 			{ID: "C07-R33", Title: "frame storage is per activation and re-pointed by its owners only (shared with C02-R17)", Floor: 3, Run: frameStorageIsPerActivation},
 			{ID: "C07-R34", Title: "nesting counters of the VM are taken off in a deferred function (shared with C03-R34)", Floor: 1, Run: nestingCountersAreKeptOnEveryPath},
 			{ID: "C07-R35", Title: "what holds loaded code is forgotten with it (shared with C14-R28)", Floor: 1, Run: whatHoldsLoadedCodeIsForgottenWithIt},
+			{ID: "C07-R36", Title: "an option of the VM sets its field whatever the value is (shared with C14-R26)", Floor: 3, Run: vmOptionsSetWhatTheyAreGiven},
+			{ID: "C07-R37", Title: "a Config is applied to the VM as a whole (shared with C11-R24)", Floor: 3, Run: theConfigurationIsAppliedAsAWhole},
 		},
 	})
 }
